@@ -635,6 +635,9 @@ func (ai *AInterp) eval(fr *aFrame, st *AState, v ssa.Value) AVal {
 				if other.Kind == avPtr || other.Kind == avFunc || other.Kind == avStruct {
 					return aBool(x.Op == token.NEQ)
 				}
+				if _, isTab := other.Any.(map[string]string); isTab {
+					return aBool(x.Op == token.NEQ)
+				}
 			}
 			if a.Kind == avPtr && b.Kind == avPtr {
 				same := a.Obj.ID == b.Obj.ID && a.Field == b.Field
@@ -786,7 +789,22 @@ func (ai *AInterp) eval(fr *aFrame, st *AState, v ssa.Value) AVal {
 			}
 		}
 		return aUnknown(x)
-	case *ssa.Lookup, *ssa.Index, *ssa.Range, *ssa.Next, *ssa.Select:
+	case *ssa.Lookup:
+		// a table known to the client (map[string]string) indexed by a constant
+		m := fr.get(ai, st, x.X)
+		if tab, ok := m.Any.(map[string]string); ok {
+			if k, ok := fr.get(ai, st, x.Index).Str(); ok {
+				v, found := tab[k]
+				val := aStr(v)
+				val.Tag = "ns-value"
+				if x.CommaOk {
+					return AVal{Kind: avTuple, Tup: []AVal{val, aBool(found)}}
+				}
+				return val
+			}
+		}
+		return aUnknown(x)
+	case *ssa.Index, *ssa.Range, *ssa.Next, *ssa.Select:
 		return aUnknown(x)
 	}
 	return aUnknown(v)
